@@ -4,7 +4,7 @@
    byte string and every decoder state (hence after any history), and bounds the number of returned packets.
    Not expressible in the model, exercised by the harness only: lifetime/ownership of the returned packets, const-ness of
    the input, wall-clock promptness. *)
-Require Import CMP.Bytes CMP.Packet CMP.Tecmp CMP.Decoder CMP.DecoderProofs CMP.TecmpProofs CMP.Cir CMP.CodeRefine CMPGen.GenCode.
+Require Import CMP.Bytes CMP.Packet CMP.Tecmp CMP.Decoder CMP.DecoderProofs CMP.TecmpProofs CMP.Cir CMP.CodeBridge CMP.CodeValidators CMP.CodeSegPred CMPGen.GenCode.
 Local Open Scope Z_scope.
 
 Theorem C02_decode_total_in_bounds : forall (st : dstate) (buf : list Z),
@@ -28,14 +28,14 @@ Print Assumptions C02_has_payload.
    validators and of the two segment predicates, re-translated into the IR of Cir.v, evaluate without any read outside the buffer
    (result Ok, never Oob) for EVERY buffer - the guard in front of each header read is the one that makes it safe. *)
 Theorem C02_translated_guards_read_in_bounds : forall d, bytes_ok d -> zlen d < 2 ^ 64 ->
-  (exists v, ceval gen_reads d (penv d) code_Packet_isValidPacket = Ok v) /\
+  (forall c, code_Packet_isValidPacket = Some c -> exists v, ceval gen_reads d (penv d) c = Ok v) /\
   (forall k c, code_of_kind k = Some c -> exists v, ceval gen_reads d (penv d) c = Ok v) /\
-  (16 <= zlen d -> (exists v, ceval gen_reads d (penv d) code_Decoder_isSegmentedPacket = Ok v) /\
-                   (exists v, ceval gen_reads d (penv d) code_Decoder_isFirstSegment = Ok v)).
+  (16 <= zlen d -> (forall c, code_Decoder_isSegmentedPacket = Some c -> exists v, ceval gen_reads d (penv d) c = Ok v) /\
+                   (forall c, code_Decoder_isFirstSegment = Some c -> exists v, ceval gen_reads d (penv d) c = Ok v)).
 Proof.
-  intros d Hd Hn. split; [eexists; apply code_valid_packet; assumption|]. split.
+  intros d Hd Hn. split; [intros c Hc; eexists; apply code_valid_packet; assumption|]. split.
   - intros k c Hc. eexists. apply (code_validator_refines d k c); assumption.
-  - intros L. split; eexists; [apply code_is_segmented|apply code_is_first]; assumption.
+  - intros L. split; intros c Hc; eexists; [apply code_is_segmented|apply code_is_first]; assumption.
 Qed.
 Print Assumptions C02_translated_guards_read_in_bounds.
 
